@@ -906,3 +906,180 @@ Section CryptoProofs.
     destruct (decrypt_result b sec c source sp rs); [apply IH|]. cbn [snd]. apply IH.
   Qed.
 End CryptoProofs.
+
+(** * Non-vacuity: concrete primitives satisfying the hypotheses, and a
+    concrete bundle run through [apply] / [verify] *)
+
+Module Ex.
+  (** keys are numbers; the key ring resolves the one-octet KID (label 4) *)
+  Definition keyring (v : cbor) : option N :=
+    match v with
+    | CArr [CBstr _; CMap u; _; _; _] =>
+        match lookup_hdr u 4 with Some (CBstr [k]) => Some k | _ => None end
+    | _ => None
+    end.
+  Definition wrap (kek cek : N) : bytes := [kek; cek].
+  Definition unwrap (kek : N) (w : bytes) : option N :=
+    match w with [a; c] => if a =? kek then Some c else None | _ => None end.
+
+  (** (S) idealised, injective authenticator: the tag is the key and the message *)
+  Definition macS (k : N) (m : bytes) : bytes := k :: m.
+  Definition macS_ok (k : N) (m t : bytes) : bool := bytes_eqb t (k :: m).
+  (** (C) short tag (correct but not injective), for the completeness example *)
+  Definition macC (k : N) (m : bytes) : bytes := [(k + N.of_nat (length m)) mod 256].
+  Definition macC_ok (k : N) (m t : bytes) : bool := bytes_eqb t (macC k m).
+
+  (** idealised AEAD: the ciphertext spells out key, IV, associated data, plaintext *)
+  Definition pack (k : N) (iv a : bytes) : bytes := k :: N.of_nat (length iv) :: iv ++ N.of_nat (length a) :: a.
+  Definition enc (k : N) (iv a p : bytes) : bytes := pack k iv a ++ p.
+  Definition dec (k : N) (iv a c : bytes) : option bytes :=
+    if bytes_eqb (firstn (length (pack k iv a)) c) (pack k iv a) then Some (skipn (length (pack k iv a)) c) else None.
+
+  Lemma bytes_eqb_refl x : bytes_eqb x x = true.
+  Proof. apply bytes_eqb_eq. reflexivity. Qed.
+
+  Lemma unwrap_wrap kek cek : unwrap kek (wrap kek cek) = Some cek.
+  Proof. unfold unwrap, wrap. rewrite N.eqb_refl. reflexivity. Qed.
+
+  Lemma macS_ok_mac k m : macS_ok k m (macS k m) = true.
+  Proof. apply bytes_eqb_refl. Qed.
+
+  Lemma macS_inj k k' x y t : macS_ok k x t = true -> macS_ok k' y t = true -> k = k' /\ x = y.
+  Proof.
+    unfold macS_ok. intros H H'. apply bytes_eqb_eq in H, H'. subst t. injection H' as -> ->. split; reflexivity.
+  Qed.
+
+  Lemma macC_ok_mac k m : macC_ok k m (macC k m) = true.
+  Proof. apply bytes_eqb_refl. Qed.
+
+  Lemma macC_okbytes k m : okbytes (macC k m).
+  Proof. unfold okbytes, macC. cbn [wf length]. split; [lia|]. constructor; [unfold wf_byte; lia|constructor]. Qed.
+
+  Lemma dec_enc k iv a p : dec k iv a (enc k iv a p) = Some p.
+  Proof.
+    unfold dec, enc. rewrite firstn_app, Nat.sub_diag, firstn_all. cbn [firstn]. rewrite app_nil_r, bytes_eqb_refl.
+    rewrite skipn_app, Nat.sub_diag, skipn_all. reflexivity.
+  Qed.
+
+  Lemma aead_auth k iv a c p : dec k iv a c = Some p -> c = enc k iv a p.
+  Proof.
+    unfold dec, enc. destruct (bytes_eqb _ _) eqn:E; [|discriminate]. intros H. injection H as <-.
+    apply bytes_eqb_eq in E. rewrite <- E at 1. symmetry. apply firstn_skipn.
+  Qed.
+
+  Lemma enc_inj k iv a p k' iv' a' p' : enc k iv a p = enc k' iv' a' p' -> k = k' /\ iv = iv' /\ a = a' /\ p = p'.
+  Proof.
+    unfold enc, pack. cbn [app]. intros H. injection H as -> Hl H.
+    apply Nat2N.inj in Hl. rewrite <- !app_assoc in H. apply app_inj_len in H as [-> H]; [|exact Hl].
+    cbn [app] in H. injection H as Hl' H. apply Nat2N.inj in Hl'.
+    apply app_inj_len in H as [-> ->]; [|exact Hl']. repeat split.
+  Qed.
+
+  (** a small bundle: primary block (CRC-16), a type-7 block number 2, the payload *)
+  Definition eid (s : bytes) : cbor := CArr [CUint 1; CTstr s].
+  Definition pri : list cbor :=
+    [CUint 7; CUint 0; CUint 1; eid [47;47;98;47;115]; eid [47;47;97;47]; eid [47;47;97;47];
+     CArr [CUint 1000; CUint 0]; CUint 3600000].
+  Definition b0 : bundle := mkB pri [mkCB 7 2 0 1 [5]; mkCB 1 1 0 2 [104; 105]].
+  Definition src : cbor := eid [47;47;97;47].
+  Definition sc : scope := [(CUint 0, 1); (CNint 0, 1)].
+  Definition prot : bytes := [161; 1; 5].
+  Definition uh : list (cbor * cbor) := [(CUint 4, CBstr [9])].
+
+  (** *** integrity, direct key 9, COSE_Mac0 *)
+  Definition b1C := apply_bib N macC wrap KMac0 (Direct N 9) prot uh b0 3 src sc [] None [1].
+  Definition bibC : option cblock := match b1C with Some b => find_block b 3 | None => None end.
+
+  Example complete_run :
+    match b1C, bibC with
+    | Some b, Some sec => verify_bib N macC_ok unwrap keyring b sec = true
+    | _, _ => False
+    end.
+  Proof. vm_compute. reflexivity. Qed.
+
+  (** the premises of the completeness theorem hold for this run *)
+  Example complete_premises :
+    auth_kind KMac0 /\
+    keys_resolve N keyring KMac0 (Direct N 9) prot uh src (mkSP [] None sc) /\
+    results_decodable N wrap KMac0 (Direct N 9) prot uh /\
+    (forall x, okbytes (macC 9 x)) /\
+    scope_of_cbor (scope_map sc) = Some sc /\
+    (forall f, In (CNint 1, f) sc -> flag_btsd f = false) /\
+    ~ In (CUint 3) (map fst sc) /\ find_block b0 3 = None /\
+    exists a, apply_bib_asb N macC wrap KMac0 (Direct N 9) prot uh b0 (mkCB bib_type 3 0 0 []) src sc [] None [1] = Some a
+              /\ asb_dec (asb_enc a) = Some a.
+  Proof.
+    split; [left; reflexivity|]. split; [split; [left; reflexivity|reflexivity]|].
+    split.
+    { intros tag Ht. split; [|cbn; unfold cose_fuel; lia].
+      apply wf_CArr. split; [cbn; lia|].
+      repeat (apply Forall_cons); try apply Forall_nil; try exact Ht.
+      - apply wfb_spec. reflexivity.
+      - apply wfb_spec. reflexivity.
+      - cbn. lia. }
+    split; [apply macC_okbytes|]. split; [reflexivity|].
+    split; [intros f [H|[H|[]]]; discriminate|].
+    split; [intros [H|[H|[]]]; discriminate|]. split; [reflexivity|].
+    eexists. split; [vm_compute; reflexivity|vm_compute; reflexivity].
+  Qed.
+
+  (** *** soundness instance: an altered payload, an altered primary block and
+      a wrong key fail; an altered block outside the scope still verifies *)
+  Definition b1S := apply_bib N macS wrap KMac0 (Direct N 9) prot uh b0 3 src sc [] None [1].
+  Definition vS (alter : bundle -> bundle) (kr : cbor -> option N) : option bool :=
+    match b1S with
+    | Some b => match find_block b 3 with
+                | Some sec => Some (verify_bib N macS_ok unwrap kr (alter b) sec)
+                | None => None
+                end
+    | None => None
+    end.
+  Definition alter_payload (b : bundle) := replace_btsd b 1 [104; 106].
+  Definition alter_other (b : bundle) := replace_btsd b 2 [6].
+  Definition alter_primary (b : bundle) := mkB (CUint 7 :: CUint 4 :: tl (tl (b_pri b))) (b_blocks b).
+  Definition keyring_wrong (v : cbor) : option N := option_map (N.add 1) (keyring v).
+
+  Example sound_run :
+    vS (fun b => b) keyring = Some true /\ vS alter_payload keyring = Some false /\
+    vS alter_primary keyring = Some false /\ vS alter_other keyring = Some true /\
+    vS (fun b => b) keyring_wrong = Some false.
+  Proof. vm_compute. repeat split. Qed.
+
+  Example wf_op_run :
+    match find_block b0 1 with
+    | Some tgt => wf_op (mkOp KMac0 prot b0 (mkCB bib_type 3 0 0 []) src sc [] tgt) /\
+                  covered (mkOp KMac0 prot b0 (mkCB bib_type 3 0 0 []) src sc [] tgt) <> None
+    | None => False
+    end.
+  Proof.
+    cbn [find_block b0 b_blocks find cb_num N.eqb Pos.eqb]. split; [|vm_compute; discriminate].
+    unfold wf_op. vm_compute covered. unfold wf_cov, wf_ctx, okbytes. cbn [fst snd].
+    repeat split; try (apply wfb_spec; vm_compute; reflexivity).
+    apply Forall_forall. intros x Hx. apply wfb_spec.
+    revert x Hx. apply Forall_forall. vm_compute. repeat constructor.
+  Qed.
+
+  (** *** confidentiality, direct key 9, COSE_Encrypt0, including the empty plaintext *)
+  Definition protE : bytes := [161; 1; 1].
+  Definition b0e : bundle := mkB pri [mkCB 7 2 0 1 [5]; mkCB 1 1 0 2 []].
+  Definition runE (b : bundle) (kr : cbor -> option N) (alter : bundle -> bundle) : option (bool * option bytes * option bytes) :=
+    match apply_bcb N enc wrap KEnc0 (Direct N 9) protE uh b 4 src sc [] None [(1, [1; 2; 3])] with
+    | Some b' =>
+        match find_block b' 4 with
+        | Some sec =>
+            let r := verify_bcb N dec unwrap kr true (alter b') sec in
+            Some (fst r, option_map cb_btsd (find_block b' 1), option_map cb_btsd (find_block (snd r) 1))
+        | None => None
+        end
+    | None => None
+    end.
+
+  Example roundtrip_run :
+    (exists ct, runE b0 keyring (fun b => b) = Some (true, Some ct, Some [104; 105]) /\ ct <> [104; 105]) /\
+    (exists ct, runE b0e keyring (fun b => b) = Some (true, Some ct, Some [])) /\
+    (exists ct, runE b0 keyring_wrong (fun b => b) = Some (false, Some ct, Some ct)) /\
+    (exists ct, runE b0 keyring alter_primary = Some (false, Some ct, Some ct)).
+  Proof.
+    repeat split; eexists; (split; [vm_compute; reflexivity|vm_compute; discriminate]) || (vm_compute; reflexivity).
+  Qed.
+End Ex.
